@@ -5,5 +5,7 @@ pub fn run(tier: &str, seed: u64, dir: &str) {
     let mut out = Out::new("C02", dir);
     let mut rng = Rng::new(seed);
     crate::conv_cie::run_family(&mut out, &mut rng, tier);
+    crate::conv_rgb::run_family(&mut out, &mut rng, tier);
+    crate::conv_ok::run_family(&mut out, &mut rng, tier);
     out.finish(dir, "");
 }
